@@ -1,9 +1,20 @@
 ----------------------------- MODULE MC_EncLoop -----------------------------
 (* Model-checking instance of EncLoop: constant values that a .cfg cannot express. *)
-EXTENDS EncLoop
+EXTENDS EncLoop, IndDefs
 HdrNone == <<>>            \* the hooked chunk loop: no file header
 HdrKey  == <<4, 128>>      \* key_encrypt: prologue, Noise handshake message
 HdrPass == <<4, 32>>       \* pass_encrypt: magic, salt
 HdrSmall == <<2, 3>>     \* two header items of abstract small sizes (exhaustive checking)
 Unbounded == -1
+
+(* Refinement link to the unbounded argument: the integer projection of every reachable state of
+   EncLoop satisfies the inductive invariant that Apalache proves for EncLoopInd (so the
+   projection is a faithful abstraction of the model that is replayed into the code). *)
+MaxNonce == IF sealed = {} THEN -1 ELSE CHOOSE n \in {a.nonce : a \in sealed} : \A b \in sealed : b.nonce <= n
+ProjPc == CASE pc \in {"hdr", "hflush", "read0"} -> "read0"
+            [] pc = "read" -> "read" [] pc = "seal" -> "seal"
+            [] pc \in {"write", "flush"} -> "write"
+            [] OTHER -> IF res = "ok" THEN "end" ELSE "failed"
+ProjIndInv == EncIndInv(CS, L, ProjPc, pos, (IF pc = "flush" THEN Covered - prevLen ELSE Covered),
+                        prevLen, numRead, done, ctr, Cardinality(sealed), MaxNonce)
 =============================================================================
